@@ -31,6 +31,7 @@ var (
 	ErrDecimalPrecisionTooHigh         = fmt.Errorf("precision is set to more than %d digits", aseMaxDecimalDigits)
 	ErrDecimalPrecisionTooLow          = fmt.Errorf("precision is set to less than 0 digits")
 	ErrDecimalScaleTooHigh             = fmt.Errorf("scale is set to more than %d digits", aseMaxDecimalDigits)
+	ErrDecimalScaleTooLow              = fmt.Errorf("scale is set to less than 0 digits")
 	ErrDecimalScaleBiggerThanPrecision = fmt.Errorf("scale is bigger then precision")
 )
 
@@ -86,6 +87,10 @@ func (dec Decimal) sanity() error {
 
 	if dec.Scale > aseMaxDecimalDigits {
 		return ErrDecimalScaleTooHigh
+	}
+
+	if dec.Scale < 0 {
+		return ErrDecimalScaleTooLow
 	}
 
 	if dec.Scale > dec.Precision {
@@ -183,10 +188,27 @@ func (dec *Decimal) SetString(s string) error {
 	s = strings.TrimSpace(s)
 
 	split := strings.Split(s, ".")
+	if len(split) > 2 {
+		return fmt.Errorf("failed to parse number %s: more than one decimal point", s)
+	}
 	left := split[0]
 	right := ""
 	if len(split) > 1 {
 		right = split[1]
+	}
+
+	// A sign is only valid in front of the number.
+	if strings.ContainsAny(right, "+-") {
+		return fmt.Errorf("failed to parse number %s: sign in fractional part", s)
+	}
+
+	// Fractional digits beyond the scale cannot be stored - only
+	// zeroes can be dropped without changing the value.
+	if dec.Scale >= 0 && len(right) > dec.Scale {
+		if strings.Trim(right[dec.Scale:], "0") != "" {
+			return fmt.Errorf("number %s has more than %d fractional digits", s, dec.Scale)
+		}
+		right = right[:dec.Scale]
 	}
 
 	// Set underlying big.Int structure to the whole number
@@ -200,6 +222,10 @@ func (dec *Decimal) SetString(s string) error {
 		mul := big.NewInt(10)
 		mul.Exp(mul, big.NewInt(int64(dec.Scale-len(right))), nil)
 		i.Mul(i, mul)
+	}
+
+	if i.Sign() != 0 && len(big.NewInt(0).Abs(i).String()) > dec.Precision {
+		return fmt.Errorf("number %s has more than %d digits", s, dec.Precision)
 	}
 
 	dec.i = i
